@@ -242,7 +242,8 @@ func c13Programs(tier string) []*Spec {
 func init() {
 	register(&Family{
 		Property: "C13",
-		Rule: "auto-refresh programs: 1..2 bars completing x writer threads {1,2} x lines {one short, short+40 columns, 300 bytes}, one Write after Wait; one manual-refresh program whose client refreshes after its last write. Every schedule within the deviation bound (Write vs render cycle, completion, final render, shutdown). " +
+		Rule: "also: the same line written twice with a frame in between while the bar rows stand still; a line written in pieces in a container without bars (output == bytes written); " +
+			"auto-refresh programs: 1..2 bars completing x writer threads {1,2} x lines {one short, short+40 columns, 300 bytes}, one Write after Wait; one manual-refresh program whose client refreshes after its last write. Every schedule within the deviation bound (Write vs render cycle, completion, final render, shutdown). " +
 			"Oracle on the concatenated output with escape sequences removed: each successful line exactly once, order consistent with real-time order of the calls, inside its frame above the first bar row, carried by a write not later than the last one before Wait returned; failed writes emit nothing; Write after Wait = (0, ErrDone); every bar row still parses.",
 		Items: func(tier string) []Item {
 			var items []Item
